@@ -91,6 +91,11 @@ pub struct Layout {
     pub prefix_seed: u64,
     pub trailing: u32,
     pub force_z64_end: bool,
+    /// with a forced ZIP64 end record: which fields of the 32-bit end record keep their REAL values instead of
+    /// the 0xFFFF / 0xFFFFFFFF sentinels (bit 0 entry counts, bit 1 directory size, bit 2 directory offset) -
+    /// producers in always-ZIP64 mode write real values whenever they fit (APPNOTE 4.4.1.4 allows both)
+    #[serde(default)]
+    pub z64_end_real: u8,
     /// central directory order as a rotation amount (0 = same as local order) and reversal
     pub central_rot: u32,
     pub central_rev: bool,
@@ -399,11 +404,15 @@ pub fn build(l: &Layout) -> Built {
     img.extend_from_slice(&0u16.to_le_bytes());
     img.extend_from_slice(&0u16.to_le_bytes());
     if zip64_end {
-        // saturate: the ZIP64 record is authoritative
-        img.extend_from_slice(&0xFFFFu16.to_le_bytes());
-        img.extend_from_slice(&0xFFFFu16.to_le_bytes());
-        img.extend_from_slice(&0xFFFF_FFFFu32.to_le_bytes());
-        img.extend_from_slice(&0xFFFF_FFFFu32.to_le_bytes());
+        // the ZIP64 record is authoritative; the 32-bit fields are saturated or (when asked, and they fit) real
+        let real = l.z64_end_real;
+        let cnt = if real & 1 != 0 && n < 0xFFFF { n as u16 } else { 0xFFFF };
+        img.extend_from_slice(&cnt.to_le_bytes());
+        img.extend_from_slice(&cnt.to_le_bytes());
+        let sz = if real & 2 != 0 && cd_size < 0xFFFF_FFFF { cd_size as u32 } else { 0xFFFF_FFFF };
+        img.extend_from_slice(&sz.to_le_bytes());
+        let off = if real & 4 != 0 && rel_cd < 0xFFFF_FFFF { rel_cd as u32 } else { 0xFFFF_FFFF };
+        img.extend_from_slice(&off.to_le_bytes());
     } else {
         img.extend_from_slice(&(n as u16).to_le_bytes());
         img.extend_from_slice(&(n as u16).to_le_bytes());
